@@ -168,6 +168,7 @@ class MemTransport(asyncio.Transport):
         self._pump_scheduled = False
         self.eof_sent = False
         self.eof_delivered = False
+        self.close_called = False
         self.log = net.log
         self._extra = {
             "peername": remote,
@@ -244,6 +245,7 @@ class MemTransport(asyncio.Transport):
         self._schedule_pump()
 
     def close(self):
+        self.close_called = True  # the owner asked for it, whatever state the connection is in
         if self.closing or self.closed:
             return
         self.closing = True
@@ -256,6 +258,7 @@ class MemTransport(asyncio.Transport):
         self._maybe_finish_close()
 
     def abort(self):
+        self.close_called = True
         self._abort(None)
 
     # ---- internals ----
@@ -552,8 +555,9 @@ class Net:
 
     # -- ledger helpers
     def server_side_open(self):
-        """server-side transports on which close() has not been requested"""
-        return sorted(t.name for t in self.open_transports if t.name.startswith("s") and not t.closing)
+        """server-side transports the server never called close()/abort() on - whether or not the network
+        has torn them down meanwhile (a reset from the peer does not count as the server releasing them)"""
+        return sorted(t.name for t in self.all_transports if t.name.startswith("s") and not t.close_called)
 
     def server_side_closing(self):
         """close() requested but the buffer could not be flushed yet (peer not reading)"""
